@@ -522,6 +522,9 @@ theorem setTop_split (l1 : List (Cell K V)) (x : Cell K V) (l2 : List (Cell K V)
       simp [setTop]
     rw [this, ih]; rfl
 
+/-- a chain consists of whole buckets: it is not empty and has a multiple of 8 cells -/
+def Len8 (c : List (Cell K V)) : Prop := c ≠ [] ∧ c.length % 8 = 0
+
 /-- no evacuation marks in a chain of the current table -/
 def NoMarks (c : List (Cell K V)) : Prop := ∀ x ∈ c, x.top.toNat ≤ 1 ∨ 5 ≤ x.top.toNat
 
@@ -748,7 +751,7 @@ structure WF (o : Ops K) (h : HMap K V) : Prop where
   size : h.buckets.size = 2 ^ h.B
   newOK : ∀ i (hi : i < h.buckets.size),
     NoMarks h.buckets[i] ∧ RestOK h.buckets[i] ∧ Placed o h.hash0 (2 ^ h.B) i h.buckets[i] ∧
-      Hashable o h.buckets[i] ∧ h.buckets[i] ≠ []
+      Hashable o h.buckets[i] ∧ Len8 h.buckets[i]
   count : h.count = (abs h).length
   nodup : NoDupKeys o.eq (abs h)
   old : match h.old with
@@ -918,7 +921,7 @@ theorem wf_set {o : Ops K} {h h' : HMap K V} (hw : WF o h) {b : Nat} (hb : b < h
     (hbk : h'.buckets = h.buckets.setIfInBounds b c') (hold : h'.old = h.old)
     (hB : h'.B = h.B) (hs : h'.sameSizeGrow = h.sameSizeGrow) (hn : h'.nevacuate = h.nevacuate)
     (h0 : h'.hash0 = h.hash0)
-    (hc : NoMarks c' ∧ RestOK c' ∧ Placed o h.hash0 (2 ^ h.B) b c' ∧ Hashable o c' ∧ c' ≠ [])
+    (hc : NoMarks c' ∧ RestOK c' ∧ Placed o h.hash0 (2 ^ h.B) b c' ∧ Hashable o c' ∧ Len8 c')
     (hcount : h'.count = (abs h').length) (hnd : NoDupKeys o.eq (abs h')) : WF o h' := by
   refine ⟨by rw [hbk, hB]; simpa using hw.size, ?_, hcount, hnd, ?_⟩
   · intro i hi
@@ -990,7 +993,11 @@ theorem assignCore_spec {o : Ops K} (ho : HashOK o) {h : HMap K V} (hw : WF o h)
       conv => rhs; rw [← List.append_assoc, insert_split hpre hxk]
       simp only [List.append_assoc]
     refine ⟨?_, by rw [heq], rfl⟩
-    refine wf_set hw hb hhome rfl rfl rfl rfl rfl rfl ⟨?_, ?_, ?_, ?_, by simp⟩ ?_ ?_
+    have hlen8 : Len8 (l1 ++ x' :: l2) := by
+      have := hne.2
+      rw [hc] at this
+      exact ⟨by simp, by simpa using this⟩
+    refine wf_set hw hb hhome rfl rfl rfl rfl rfl rfl ⟨?_, ?_, ?_, ?_, hlen8⟩ ?_ ?_
     · intro y hy
       rw [hc] at hN
       rcases List.mem_append.1 hy with hy | hy
@@ -1058,7 +1065,7 @@ theorem assignCore_spec {o : Ops K} (ho : HashOK o) {h : HMap K V} (hw : WF o h)
       have key : ∀ (h1 : HMap K V) (c' : Chain K V), h1.buckets = h.buckets → h1.old = h.old → h1.B = h.B →
           h1.sameSizeGrow = h.sameSizeGrow → h1.nevacuate = h.nevacuate → h1.hash0 = h.hash0 → h1.count = h.count →
           (chainAbs c').Perm (chainAbs h.buckets[bucketIdx hash h.B] ++ [(k, v)]) →
-          NoMarks c' → RestOK c' → c' ≠ [] → (∀ y ∈ c', y.live = true → y ∈ h.buckets[bucketIdx hash h.B] ∨
+          NoMarks c' → RestOK c' → Len8 c' → (∀ y ∈ c', y.live = true → y ∈ h.buckets[bucketIdx hash h.B] ∨
             y = { top := tophash hash, key := k, val := v }) →
           AssignPost o h k v
             (.done { h1 with buckets := h1.buckets.setIfInBounds (bucketIdx hash h.B) c', count := h1.count + 1 }) := by
@@ -1100,7 +1107,11 @@ theorem assignCore_spec {o : Ops K} (ho : HashOK o) {h : HMap K V} (hw : WF o h)
         subst hi
         rw [hc, set_split]
         have hxd : x.live = false := dead_of_isEmpty hxe
-        refine key h _ rfl rfl rfl rfl rfl rfl rfl ?_ ?_ ?_ (by simp) ?_
+        have hlen8 : Len8 (l1 ++ ({ top := tophash hash, key := k, val := v } : Cell K V) :: l2) := by
+          have := hne.2
+          rw [hc] at this
+          exact ⟨by simp, by simpa using this⟩
+        refine key h _ rfl rfl rfl rfl rfl rfl rfl ?_ ?_ ?_ hlen8 ?_
         · rw [hc]
           simp only [chainAbs_append, chainAbs_cons_live newcell_live, chainAbs_cons_dead hxd]
           exact List.perm_middle.trans (List.perm_append_singleton _ _).symm
@@ -1150,7 +1161,13 @@ theorem assignCore_spec {o : Ops K} (ho : HashOK o) {h : HMap K V} (hw : WF o h)
           · simp only
             split <;> simp
         obtain ⟨i1, i2, i3, i4, i5, i6, i7⟩ := hincr h
-        refine key h.incrnoverflow _ i1 i2 i3 i4 i5 i6 i7 ?_ ?_ ?_ (by simp) ?_
+        have hlen8 : Len8 (h.buckets[bucketIdx hash h.B] ++ ({ top := tophash hash, key := k, val := v } : Cell K V) ::
+            List.replicate 7 { top := emptyRest, key := default, val := default }) := by
+          have := hne.2
+          refine ⟨by simp, ?_⟩
+          simp only [List.length_append, List.length_cons, List.length_replicate]
+          omega
+        refine key h.incrnoverflow _ i1 i2 i3 i4 i5 i6 i7 ?_ ?_ ?_ hlen8 ?_
         · simp only [chainAbs_append, chainAbs_cons_live newcell_live, chainAbs_nil_of_dead hdeadrep]
           exact List.Perm.refl _
         · intro y hy
@@ -1301,7 +1318,10 @@ theorem deleteCore_spec {o : Ops K} (ho : HashOK o) {h : HMap K V} (hw : WF o h)
     have hw1 : WF o h1 := by
       refine wf_set hw hb hhome b1 o1 (by rw [hh1]) (by rw [hh1]) (by rw [hh1]) (by rw [hh1])
         ⟨dN hN, dR, fun y hy hl hr => hP y (dM y hy hl) hl hr, fun y hy hl => hH y (dM y hy hl) hl, ?_⟩ ?_ ?_
-      · intro e
+      · have hl := hne.2
+        rw [hc] at hl
+        refine ⟨?_, by rw [deleteAt_length]; exact hl⟩
+        intro e
         have := congrArg List.length e
         simp [deleteAt_length] at this
       · have : h1.count = h.count - 1 := by rw [hh1]
@@ -1573,7 +1593,7 @@ theorem freshCell_dead : (freshCell K V).live = false := dead_of_emptyRest rfl
 
 /-- the chain an evacuation destination ends up with is a well-formed chain holding exactly the written cells -/
 theorem dst_chain_ok {d : Dst K V} {ws : List (Cell K V)} (hd : DstOK d ws) (hw : ∀ m ∈ ws, 5 ≤ m.top.toNat) :
-    chainAbs d.chain = chainAbs ws ∧ NoMarks d.chain ∧ RestOK d.chain ∧ d.chain ≠ [] ∧
+    chainAbs d.chain = chainAbs ws ∧ NoMarks d.chain ∧ RestOK d.chain ∧ Len8 d.chain ∧
       (∀ m ∈ d.chain, m.live = true → m ∈ ws) := by
   obtain ⟨hi, hlen, hch⟩ := hd
   rw [hch]
@@ -1588,10 +1608,14 @@ theorem dst_chain_ok {d : Dst K V} {ws : List (Cell K V)} (hd : DstOK d ws) (hw 
       have := hw y hy
       rw [e] at this
       simp [emptyRest] at this
-  · intro e
-    have := congrArg List.length e
-    simp only [List.length_append, List.length_replicate, List.length_nil] at this
-    omega
+  · refine ⟨?_, ?_⟩
+    · intro e
+      have := congrArg List.length e
+      simp only [List.length_append, List.length_replicate, List.length_nil] at this
+      omega
+    · simp only [List.length_append, List.length_replicate]
+      have : ws.length + (8 * (d.bi + 1) - ws.length) = 8 * (d.bi + 1) := by omega
+      rw [this]; omega
   · intro m hm hl
     rcases List.mem_append.1 hm with hm | hm
     · exact hm
@@ -1662,7 +1686,7 @@ theorem getD_of_getElem? {a : Array (Chain K V)} {i : Nat} {c : Chain K V} (h : 
 
 /-- chain properties required by `WF.newOK` -/
 def NewChainOK (o : Ops K) (seed : UInt32) (n i : Nat) (c : Chain K V) : Prop :=
-  NoMarks c ∧ RestOK c ∧ Placed o seed n i c ∧ Hashable o c ∧ c ≠ []
+  NoMarks c ∧ RestOK c ∧ Placed o seed n i c ∧ Hashable o c ∧ Len8 c
 
 /-- chain properties required by `OldOK.chains` -/
 def OldChainOK (o : Ops K) (h : HMap K V) (j : Nat) (c : Chain K V) : Prop :=
@@ -2198,7 +2222,7 @@ theorem freshArray_get (B i : Nat) (hi : i < 2 ^ B) : (freshArray K V B)[i]? = s
 theorem freshBucket_ok (o : Ops K) (seed : UInt32) (n i : Nat) : NewChainOK o seed n i (freshBucket K V) := by
   have hdead : ∀ y ∈ freshBucket K V, y.live = false := fun y hy => by
     rw [List.eq_of_mem_replicate hy]; exact dead_of_emptyRest rfl
-  refine ⟨?_, restOK_replicate_zero _ _ (dead_of_emptyRest rfl), ?_, ?_, by simp [freshBucket, bucketCnt]⟩
+  refine ⟨?_, restOK_replicate_zero _ _ (dead_of_emptyRest rfl), ?_, ?_, ⟨by simp [freshBucket, bucketCnt], by simp [freshBucket, bucketCnt]⟩⟩
   · intro y hy; left; rw [List.eq_of_mem_replicate hy]; simp [emptyRest]
   · intro y hy hl; rw [hdead y hy] at hl; cases hl
   · intro y hy hl; rw [hdead y hy] at hl; cases hl
@@ -2264,7 +2288,7 @@ theorem hashGrow_spec {o : Ops K} {h : HMap K V} (hw : WF o h) (hold : h.old = n
       obtain ⟨hj, _⟩ := getElem_of_getElem? hc
       rw [hw.size] at hj
       have hne := not_evacuated_of_noMarks a1
-      refine ⟨(fun e => by rw [hne] at e; cases e), fun _ => ⟨a1, a2, ?_, a4, a5, ?_, ?_⟩⟩
+      refine ⟨(fun e => by rw [hne] at e; cases e), fun _ => ⟨a1, a2, ?_, a4, a5.1, ?_, ?_⟩⟩
       · rw [hnold]; exact a3
       · rw [hbk]; exact freshArray_get _ _ (by omega)
       · intro e
